@@ -836,9 +836,32 @@ func HarnessEnumReadBack() {
 	if withFields {
 		enum.Info = []*schema_j5pb.Enum_OptionInfoField{{Name: "colour", Label: "Colour"}}
 	}
-	holder := verifObjectElement("Holder", []*schema_j5pb.ObjectProperty{{Name: "kind", Schema: &schema_j5pb.Field{Type: &schema_j5pb.Field_Enum{Enum: &schema_j5pb.EnumField{
-		Schema: &schema_j5pb.EnumField_Ref{Ref: &schema_j5pb.Ref{Schema: "Kind"}}}}}}})
-	files, err := verifCompile(verifSourceFile(holder, &sourcedef_j5pb.RootElement{Type: &sourcedef_j5pb.RootElement_Enum{Enum: enum}}))
+	// where the enum is declared: at top level, or inline in the holder after a
+	// map property / after an inline object (the holder then has nested
+	// messages before its nested enum)
+	placement := ndChoice("placement", 3)
+	enum.Description = ""
+	if withDesc {
+		enum.Description = "the kinds"
+	}
+	props := []*schema_j5pb.ObjectProperty{}
+	elements := []*sourcedef_j5pb.RootElement{}
+	switch placement {
+	case 0:
+		props = append(props, &schema_j5pb.ObjectProperty{Name: "kind", Schema: &schema_j5pb.Field{Type: &schema_j5pb.Field_Enum{Enum: &schema_j5pb.EnumField{
+			Schema: &schema_j5pb.EnumField_Ref{Ref: &schema_j5pb.Ref{Schema: "Kind"}}}}}})
+		elements = append(elements, &sourcedef_j5pb.RootElement{Type: &sourcedef_j5pb.RootElement_Enum{Enum: enum}})
+	case 1:
+		props = append(props, &schema_j5pb.ObjectProperty{Name: "tags", Schema: &schema_j5pb.Field{Type: &schema_j5pb.Field_Map{Map: &schema_j5pb.MapField{ItemSchema: verifField(fString)}}}})
+	case 2:
+		props = append(props, &schema_j5pb.ObjectProperty{Name: "part", Schema: verifField(fObjectInline)})
+	}
+	if placement != 0 {
+		props = append(props, &schema_j5pb.ObjectProperty{Name: "kind", Schema: &schema_j5pb.Field{Type: &schema_j5pb.Field_Enum{Enum: &schema_j5pb.EnumField{
+			Schema: &schema_j5pb.EnumField_Enum{Enum: enum}}}}})
+	}
+	holder := verifObjectElement("Holder", props)
+	files, err := verifCompile(verifSourceFile(append([]*sourcedef_j5pb.RootElement{holder}, elements...)...))
 	verifAssert(err == nil, "enum-compiles")
 	if err != nil {
 		return
@@ -849,14 +872,16 @@ func HarnessEnumReadBack() {
 		verifFail("holder-reflects")
 		return
 	}
-	ref := j5schema.VerifCachePackages(cache)["a.v1"].Schemas["Kind"]
-	if ref == nil || ref.To == nil {
-		verifFail("enum-reflected")
-		return
+	var got *schema_j5pb.Enum
+	for _, ref := range j5schema.VerifCachePackages(cache)["a.v1"].Schemas {
+		if ref.To != nil {
+			if e := ref.To.ToJ5Root().GetEnum(); e != nil {
+				got = e // the only enum of the package
+			}
+		}
 	}
-	got := ref.To.ToJ5Root().GetEnum()
 	if got == nil {
-		verifFail("enum-exports-as-enum")
+		verifFail("enum-reflected")
 		return
 	}
 	// the declared enum with the defaults the language defines made explicit
@@ -867,7 +892,10 @@ func HarnessEnumReadBack() {
 	for _, o := range opts {
 		want = append(want, &schema_j5pb.Enum_Option{Name: o.Name, Number: int32(len(want)), Description: o.Description, Info: o.Info})
 	}
-	verifAssert(got.Name == "Kind" && got.Prefix == "KIND_", "enum-name-and-default-prefix")
+	if placement == 0 {
+		verifAssert(got.Name == "Kind" && got.Prefix == "KIND_", "enum-name-and-default-prefix")
+	}
+	verifAssert(got.Description == enum.Description, "enum-description")
 	verifAssert(len(got.Options) == len(want), "option-count")
 	if len(got.Options) == len(want) {
 		for i := range want {
